@@ -628,6 +628,48 @@ def case_emcee(c):
         sp.close()
 
 
+class SmoothFitness(fit_mod.Fitness):
+    """a deterministic log posterior of the walker position (evaluated in the workers, free-running)"""
+
+    def __init__(self):
+        super().__init__(model=None, analysis=None)
+
+    def __call__(self, parameters, *kwargs):
+        x, y = float(parameters[0]), float(parameters[1])
+        time.sleep(0.002 * (int(abs(x) * 1000) % 3))     # walkers take different times
+        return -((x - 3.0) ** 2) - 0.5 * (y + 1.0) ** 2
+
+
+def case_emcee_run(c):
+    """several emcee iterations through a free-running SneakyPool, driven the way emcee/search.py drives the
+    sampler (EnsembleSampler(log_prob_fn=fitness.__call__, pool=pool); sample(initial_state=..., iterations=...,
+    skip_initial_state_check=True, store=True)): every stored log probability must be the value at its own position"""
+    import emcee
+    GATED.value = 0
+    fitness = SmoothFitness()
+    pool = sneaky_mod.SneakyPool(c["procs"], fitness, None)
+    try:
+        rs = np.random.RandomState(c["seed"])
+        sampler = emcee.EnsembleSampler(nwalkers=c["walkers"], ndim=2, log_prob_fn=fitness.__call__, pool=pool)
+        sampler._random = rs
+        state = rs.uniform(-1.0, 5.0, size=(c["walkers"], 2))
+        for _ in sampler.sample(initial_state=state, iterations=c["steps"], progress=False,
+                                skip_initial_state_check=True, store=True):
+            pass
+        chain = sampler.get_chain()
+        logp = sampler.get_log_prob()
+        bad = 0
+        for t in range(chain.shape[0]):
+            for w in range(chain.shape[1]):
+                x, y = chain[t, w]
+                if abs((-((x - 3.0) ** 2) - 0.5 * (y + 1.0) ** 2) - logp[t, w]) > 1e-12:
+                    bad += 1
+        return {"stored": int(chain.shape[0] * chain.shape[1]), "mismatched": bad,
+                "accepted": int(sampler.backend.accepted.sum())}
+    finally:
+        del pool
+
+
 class NumJob(process_mod.AbstractJob):
     def __init__(self, number, x, mode, delay=0):
         super().__init__(number=number)
@@ -1030,7 +1072,7 @@ def case_jobs_race(c):
     return {"hangs": hangs, "wrong": wrong, "stuck": stuck, "calls": c["repeat"]}
 
 
-KINDS = {"smap_twofit": case_smap_twofit, "sneakier": case_sneakier, "grid_fit": case_grid_fit, "sens_fit": case_sens_fit, "jobs_race": case_jobs_race, "smap": case_smap, "smap_free": case_smap_free, "init": case_init, "emcee": case_emcee,
+KINDS = {"emcee_run": case_emcee_run, "smap_twofit": case_smap_twofit, "sneakier": case_sneakier, "grid_fit": case_grid_fit, "sens_fit": case_sens_fit, "jobs_race": case_jobs_race, "smap": case_smap, "smap_free": case_smap_free, "init": case_init, "emcee": case_emcee,
          "jobs": case_jobs, "jobs_free": case_jobs_free}
 
 
